@@ -5,7 +5,7 @@
 From Coq Require Import ZArith Bool List Lia.
 From SV Require Import Extracted.IntC Int.Model Int.Proofs Rs.Prelude.
 From SV Require Core.Slice Eq.Model.
-From SV Require Import Extracted.RsInline Extracted.RsInt Extracted.RsIndex Extracted.RsConv Extracted.RsMix
+From SV Require Import Extracted.RsInline Extracted.RsBig Extracted.RsInt Extracted.RsIndex Extracted.RsConv Extracted.RsMix
   Extracted.RsHash Extracted.RsRange.
 From SV Require Core.Values.
 Open Scope Z_scope.
@@ -92,7 +92,7 @@ Proof. unfold rs_ltb, rs_cmpz, rsord_Z, Z.ltb. destruct (z ?= 0); reflexivity. Q
 
 Theorem rs_floor_div_big_eq a b : to_res (rs_floor_div_big_big a b) = floor_div_big a b.
 Proof.
-  unfold rs_floor_div_big_big, floor_div_big, m_is_zero, m_not, rs_mul, rs_rem, rs_div, rs_sub, m_into,
+  unfold rs_floor_div_big_big, floor_div_big, m_is_zero, m_not, rs_mul, rsmul_Z, rs_rem, rs_div, rs_sub, m_into,
     StarlarkInt_from. rewrite !sgn_sign, ltb0.
   destruct (b =? 0); reflexivity.
 Qed.
@@ -101,7 +101,7 @@ Theorem rs_floor_div_small_eq a b : to_res (rs_floor_div_small_small a b) = floo
 Proof.
   unfold rs_floor_div_small_small, floor_div_small. unfold rs_eqb at 1. unfold rseq_Z.
   destruct (b =? 0); [reflexivity|].
-  rewrite rs_checked_div_eq. unfold rs_II_signum, m_signum, rs_mul, rs_rem, rs_neb, rs_eqb, rseq_Z.
+  rewrite rs_checked_div_eq. unfold rs_II_signum, m_signum, rs_mul, rsmul_Z, rs_rem, rs_neb, rs_eqb, rseq_Z.
   rewrite ltb0. destruct (checked_div a b) as [d|].
   - rewrite rs_checked_sub_i32_eq. unfold m_ok_or_else. destruct (checked _); reflexivity.
   - unfold rs_II_to_bigint, BigInt_from. apply rs_floor_div_big_eq.
@@ -227,6 +227,38 @@ Qed.
 
 Theorem rs_abs_eq a : rs_abs a = abs a.
 Proof. destruct a as [x|x]; unfold rs_abs; [apply rs_II_abs_eq|reflexivity]. Qed.
+
+(* operators: + - * unary - & | ^ ~ and the ordering *)
+Theorem rs_add_eq a b : rs_add_sir a b = add a b.
+Proof. destruct a as [x|x], b as [y|y]; unfold rs_add_sir, add; cbv beta zeta; rewrite ?rs_to_big_eq; try reflexivity.
+  rewrite rs_checked_add_eq. destruct (checked (x + y)); reflexivity. Qed.
+Theorem rs_sub_eq a b : rs_sub_sir a b = sub a b.
+Proof. destruct a as [x|x], b as [y|y]; unfold rs_sub_sir, sub; cbv beta zeta; rewrite ?rs_to_big_eq; try reflexivity.
+  rewrite rs_checked_sub_eq. destruct (checked (x - y)); reflexivity. Qed.
+Theorem rs_neg_eq a : rs_neg_sir a = neg a.
+Proof. destruct a as [x|x]; unfold rs_neg_sir, neg; cbv beta zeta; rewrite ?rs_to_big_eq; try reflexivity.
+  rewrite rs_checked_neg_eq. destruct (checked (- x)); reflexivity. Qed.
+Theorem rs_mul_i32_eq a r : rs_mul_i32_sir a r = mul_i32 a r.
+Proof. destruct a as [x|x]; unfold rs_mul_i32_sir, mul_i32; cbv beta zeta; try reflexivity.
+  rewrite rs_checked_mul_i32_eq. destruct (checked (x * r)); reflexivity. Qed.
+Theorem rs_mul_eq a b : rs_mul_sir a b = mul a b.
+Proof. destruct a as [x|x], b as [y|y]; unfold rs_mul_sir, mul, rs_mul, rsmul_Z_rep, rsmul_rep_Z, rs_II_to_i32;
+  rewrite ?rs_mul_i32_eq; reflexivity. Qed.
+Theorem rs_bitand_eq a b : rs_bitand a b = bit_and a b.
+Proof. destruct a, b; reflexivity. Qed.
+Theorem rs_bitor_eq a b : rs_bitor a b = bit_or a b.
+Proof. destruct a, b; reflexivity. Qed.
+Theorem rs_bitxor_eq a b : rs_bitxor a b = bit_xor a b.
+Proof. destruct a, b; reflexivity. Qed.
+Theorem rs_bitnot_eq a : rs_bitnot a = bit_not a.
+Proof. destruct a; reflexivity. Qed.
+Theorem rs_cmp_eq a b : rs_cmp_sir a b = compare a b.
+Proof.
+  destruct a as [x|x], b as [y|y]; unfold rs_cmp_sir, compare, rs_cmp_big_small, rs_cmp_small_big, cmp_small_big,
+    m_cmp, m_reverse, f_value, rs_II_signum, m_signum; try reflexivity.
+  - destruct y; reflexivity.
+  - destruct x; reflexivity.
+Qed.
 
 (* `.unwrap()` in left_shift never panics and the "unreachable" anyhow! errors are unreachable *)
 Theorem rs_left_shift_no_panic a b : wf a -> wf b -> rs_left_shift a b <> RErr E_Panic.
@@ -534,6 +566,22 @@ Theorem source_shr_exact a b : wf a -> wf b -> - 2 ^ Int.Model.u64max <= den a <
 Proof. intros. rewrite rs_right_shift_eq by assumption. apply shr_exact; assumption. Qed.
 Theorem source_abs_exact a : wf a -> wf (rs_abs a) /\ den (rs_abs a) = Z.abs (den a).
 Proof. intros. rewrite rs_abs_eq. apply abs_exact; assumption. Qed.
+Theorem source_arith_exact a b : wf a -> wf b ->
+  (wf (rs_add_sir a b) /\ den (rs_add_sir a b) = den a + den b) /\
+  (wf (rs_sub_sir a b) /\ den (rs_sub_sir a b) = den a - den b) /\
+  (wf (rs_mul_sir a b) /\ den (rs_mul_sir a b) = den a * den b) /\
+  (wf (rs_neg_sir a) /\ den (rs_neg_sir a) = - den a) /\
+  (wf (rs_bitand a b) /\ den (rs_bitand a b) = Z.land (den a) (den b)) /\
+  (wf (rs_bitor a b) /\ den (rs_bitor a b) = Z.lor (den a) (den b)) /\
+  (wf (rs_bitxor a b) /\ den (rs_bitxor a b) = Z.lxor (den a) (den b)) /\
+  (wf (rs_bitnot a) /\ den (rs_bitnot a) = Z.lnot (den a)) /\
+  rs_cmp_sir a b = Z.compare (den a) (den b).
+Proof.
+  intros Wa Wb. rewrite rs_add_eq, rs_sub_eq, rs_mul_eq, rs_neg_eq, rs_bitand_eq, rs_bitor_eq, rs_bitxor_eq,
+    rs_bitnot_eq, rs_cmp_eq.
+  repeat split; first [ apply add_exact | apply sub_exact | apply mul_exact | apply neg_exact | apply and_exact
+                      | apply or_exact | apply xor_exact | apply not_exact | apply compare_exact ]; assumption.
+Qed.
 (* the checked_* fast paths of InlineInt answer exactly when the exact result is an InlineInt *)
 Theorem source_checked_ops a b :
   rs_II_checked_add a b = (if in_inline (a + b) then Some (a + b) else None) /\
